@@ -128,8 +128,8 @@ let string_of_q (q : M.q) : string =
   if Z.equal d Z.one then Z.to_string n else Z.to_string n ^ "/" ^ Z.to_string d
 
 (* ---------- RTH (C11) *)
-let run_rth (b : Z.t list) (pts : int list) (times : string list) : string =
-  match M.plan_init b with
+let run_rth ?(empty=false) (b : Z.t list) (pts : int list) (times : string list) : string =
+  match (if empty then M.Ok M.plan_empty else M.plan_init b) with
   | M.Ok pl ->
     let hd = pr "init:0 ne=%d np=%d" (int_of_nat (M.num_entries pl)) (int_of_nat pl.M.pl_num_points) in
     let ps = List.map (fun i ->
@@ -157,8 +157,8 @@ let show_vec4 (v : M.vec4) = pr "%s,%s,%s,%s" (string_of_q v.M.vx) (string_of_q 
 
 (* traj <hex> <queries>: each query is a letter (p,v,a) followed by the binary32 time; the
    cursor is threaded through the queries like the C player ('h' mode) or reset for each ('f' mode) *)
-let run_traj (mode : string) (b : Z.t list) (queries : string list) : string =
-  match M.traj_init b with
+let run_traj ?(empty=false) (mode : string) (b : Z.t list) (queries : string list) : string =
+  match (if empty then M.Ok M.traj_empty else M.traj_init b) with
   | M.Ok tr ->
     let dur = show_res_code (fun d -> string_of_z d) (M.total_duration_msec tr) in
     let segs = M.segments_prefix tr in
@@ -192,8 +192,8 @@ let run_traj (mode : string) (b : Z.t list) (queries : string list) : string =
   | r -> "init:" ^ show_res_code (fun _ -> "0") r
 
 (* ---------- yaw (C10) *)
-let run_yaw (mode : string) (b : Z.t list) (queries : string list) : string =
-  match M.yaw_init b with
+let run_yaw ?(empty=false) (mode : string) (b : Z.t list) (queries : string list) : string =
+  match (if empty then M.Ok M.yaw_empty else M.yaw_init b) with
   | M.Ok y ->
     let hd = pr "init:0 auto=%d off=%s n=%d empty=%d dur=%s" (if y.M.y_auto then 1 else 0) (string_of_z y.M.y_offset)
         (int_of_nat y.M.y_num_deltas) (if M.yaw_is_empty y then 1 else 0) (string_of_z (M.yaw_total_duration_msec y)) in
@@ -592,6 +592,10 @@ let run_case (w : string list) : string =
   | ["alloc"; n; k; ops] -> run_alloc n k ops
   | "xc" :: rest -> run_xc rest
   | "util" :: rest -> run_util rest
+  | ["light"; mode; "empty"; qs] -> run_light mode [] (if qs = "-" then [] else String.split_on_char ',' qs)
+  | ["yaw"; mode; "empty"; qs] -> run_yaw ~empty:true mode [] (if qs = "-" then [] else String.split_on_char ',' qs)
+  | ["traj"; mode; "empty"; qs] -> run_traj ~empty:true mode [] (if qs = "-" then [] else String.split_on_char ',' qs)
+  | ["rth"; "empty"; pts; times] -> run_rth ~empty:true [] (ints_of_csv pts) (if times = "-" then [] else String.split_on_char ',' times)
   | ["light"; mode; b; qs] -> run_light mode (bytes_of_hex b) (if qs = "-" then [] else String.split_on_char ',' qs)
   | ["lightspec"; b; qs] -> run_lightspec (bytes_of_hex b) (if qs = "-" then [] else String.split_on_char ',' qs)
   | ["yaw"; mode; b; qs] -> run_yaw mode (bytes_of_hex b) (if qs = "-" then [] else String.split_on_char ',' qs)
